@@ -10,6 +10,27 @@ use std::sync::{atomic::AtomicUsize, Arc, Mutex};
 
 const LEVELS: [&str; 6] = ["off", "error", "warn", "info", "debug", "trace"];
 
+
+/// A filter kind of the embedding program: it accepts every record outright (ConfigFile.tla, "pass").
+#[derive(Debug)]
+struct Pass;
+impl log4rs::filter::Filter for Pass {
+    fn filter(&self, _: &log::Record) -> log4rs::filter::Response {
+        log4rs::filter::Response::Accept
+    }
+}
+#[derive(serde::Deserialize)]
+#[serde(deny_unknown_fields)]
+struct PassConfig {}
+struct PassDeserializer;
+impl log4rs::config::Deserialize for PassDeserializer {
+    type Trait = dyn log4rs::filter::Filter;
+    type Config = PassConfig;
+    fn deserialize(&self, _: PassConfig, _: &Deserializers) -> anyhow::Result<Box<dyn log4rs::filter::Filter>> {
+        Ok(Box::new(Pass))
+    }
+}
+
 fn render(doc: &Value, dir: &str, fmt: usize) -> Value {
     let dv = doc["dv"].as_str().unwrap();
     let mut top = Map::new();
@@ -64,6 +85,8 @@ fn render(doc: &Value, dir: &str, fmt: usize) -> Value {
         "thr" => Some(json!({"kind": "capture", "tag": "c", "filters": [thr("warn")]})),
         "badfilter_kind" => Some(json!({"kind": "capture", "tag": "c", "filters": [{"kind": "nofilter"}]})),
         "thr_then_bad" => Some(json!({"kind": "capture", "tag": "c", "filters": [thr("warn"), thr("loud")]})),
+        "pass_then_thr" => Some(json!({"kind": "capture", "tag": "c", "filters": [{"kind": "pass"}, thr("warn")]})),
+        "thr_then_pass" => Some(json!({"kind": "capture", "tag": "c", "filters": [thr("warn"), {"kind": "pass"}]})),
         _ => Some(json!({"kind": "capture", "tag": "c", "filters": [thr("loud"), thr("warn")]})),
     };
     if let Some(c) = c {
@@ -229,6 +252,7 @@ fn check_format(case: &Value, fmt: usize) -> Option<Value> {
     let mk = || {
         let mut d = Deserializers::default();
         d.insert("capture", CaptureDeserializer { sink: sink.clone(), built: built.clone(), slow_v3: std::time::Duration::ZERO });
+        d.insert("pass", PassDeserializer);
         d
     };
     let class = case["class"].as_str().unwrap();
